@@ -162,6 +162,9 @@ class Origins:
             it = self.of(it_node, a.iter, depth)
             return self._unpack(a.target, ("elem", it), name)
         if node.kind == "stmt" and isinstance(a, ast.Assign):
+            if len(a.targets) == 1 and isinstance(a.targets[0], ast.Name) and a.targets[0].id == name and isinstance(a.value, ast.BinOp) and isinstance(a.value.op, ast.Add) \
+                    and isinstance(a.value.left, ast.Name) and a.value.left.id == name:
+                return ("aug", "Add", name, self.of(d, a.value.right, depth), d)        # x = x + e: the same accumulation as x += e
             val = self.of(d, a.value, depth)
             for t in a.targets:
                 r = self._unpack(t, val, name)
